@@ -86,6 +86,18 @@ fn dec_enc(g2: bool, k: Kind, b: &[u8]) -> (bool, [u8; 130], usize) {
     }
     (ok, out, n)
 }
+// strictness / totality / no spurious rejection (no re-encoding: cheap product contract suffices)
+fn check_strict(g2: bool, k: Kind, b: &[u8]) {
+    let wf = well_formed(g2, k, b);
+    let ok = is_ok(g2, k, b);
+    assert!(!ok || wf, "decoder returned Ok for a string that is not a well-formed encoding (length / prefix / coordinate >= q)");
+    #[cfg(kani)]
+    unsafe {
+        use ghost::*;
+        assert!(ok || !wf || SQRT_NONE || NEW_ERR, "well-formed encoding rejected although square root and curve/subgroup validation succeeded");
+        assert!(!ok || (NEW_CALLS >= 1 && !NEW_ERR), "decoder accepted a point without (successful) validated construction");
+    }
+}
 fn check_one(g2: bool, k: Kind, b: &[u8]) {
     let wf = well_formed(g2, k, b);
     let (ok, re, n) = dec_enc(g2, k, b);
@@ -168,13 +180,23 @@ fn transplants(g2: bool, k: Kind, b: &[u8]) -> Vec<Vec<u8>> {
 // spurious rejection, no panic
 fn dec_harness<const N: usize>(g2: bool, k: Kind) {
     let buf: [u8; N] = sym::bytes();
+    check_strict(g2, k, &buf);
+    #[cfg(not(kani))]
+    for t in transplants(g2, k, &buf) {
+        check_strict(g2, k, &t);
+    }
+    cover!(well_formed(g2, k, &buf), "well-formed input");
+    cover!(!well_formed(g2, k, &buf), "malformed input");
+}
+// round trip: a well-formed string that decodes re-encodes to itself (encode/decode bijection model)
+fn decenc_harness<const N: usize>(g2: bool, k: Kind) {
+    let buf: [u8; N] = sym::bytes();
+    sym::assume(well_formed(g2, k, &buf));
     check_one(g2, k, &buf);
     #[cfg(not(kani))]
     for t in transplants(g2, k, &buf) {
         check_one(g2, k, &t);
     }
-    cover!(well_formed(g2, k, &buf), "well-formed input");
-    cover!(!well_formed(g2, k, &buf), "malformed input");
 }
 // every other length 0..=140 (each length concrete inside the loop so that the decoder's own length
 // test folds; arbitrary content): Err, no panic
@@ -306,9 +328,20 @@ fn gt_eq() {
 }
 
 macro_rules! dec_h {
-    ($($name:ident, $lname:ident, $n:expr, $unw:expr, $g2:expr, $k:expr;)*) => {
+    ($($name:ident, $lname:ident, $rname:ident, $n:expr, $unw:expr, $g2:expr, $k:expr;)*) => {
         harnesses! { registry;
             $(
+            #[kani::unwind($unw)]
+            #[kani::stub(core::arch::x86_64::_addcarry_u64, addcarry_stub)]
+            #[kani::stub(core::arch::x86_64::_subborrow_u64, subborrow_stub)]
+            #[kani::stub(sm9_core::verif_hooks::U256::mul, mul_havoc_z)]
+            #[kani::stub(sm9_core::verif_hooks::U256::square, square_model)]
+            #[kani::stub(sm9_core::verif_hooks::U256::invert, invert_model)]
+            #[kani::stub(sm9_core::verif_hooks::RawFq::sum_of_products, sop_havoc)]
+            #[kani::stub(sm9_core::verif_hooks::RawFq::sqrt, fq_sqrt_model)]
+            #[kani::stub(sm9_core::verif_hooks::RawFq2::sqrt, fq2_sqrt_model)]
+            #[kani::stub(sm9_core::verif_hooks::AffineG::new, affine_new_model)]
+            fn $name() { dec_harness::<$n>($g2, $k) }
             #[kani::unwind($unw)]
             #[kani::stub(core::arch::x86_64::_addcarry_u64, addcarry_stub)]
             #[kani::stub(core::arch::x86_64::_subborrow_u64, subborrow_stub)]
@@ -319,7 +352,7 @@ macro_rules! dec_h {
             #[kani::stub(sm9_core::verif_hooks::RawFq::sqrt, fq_sqrt_model)]
             #[kani::stub(sm9_core::verif_hooks::RawFq2::sqrt, fq2_sqrt_model)]
             #[kani::stub(sm9_core::verif_hooks::AffineG::new, affine_new_model)]
-            fn $name() { dec_harness::<$n>($g2, $k) }
+            fn $rname() { decenc_harness::<$n>($g2, $k) }
             #[kani::unwind(143)]
             #[kani::stub(core::arch::x86_64::_addcarry_u64, addcarry_stub)]
             #[kani::stub(core::arch::x86_64::_subborrow_u64, subborrow_stub)]
@@ -353,10 +386,10 @@ macro_rules! dec_h {
     };
 }
 dec_h! {
-    k_dec_g1_raw, k_declen_g1_raw, 64, 34, false, Kind::Raw;
-    k_dec_g1_uncompressed, k_declen_g1_uncompressed, 65, 34, false, Kind::Unc;
-    k_dec_g1_compressed, k_declen_g1_compressed, 33, 34, false, Kind::Cmp;
-    k_dec_g2_raw, k_declen_g2_raw, 128, 34, true, Kind::Raw;
-    k_dec_g2_uncompressed, k_declen_g2_uncompressed, 129, 34, true, Kind::Unc;
-    k_dec_g2_compressed, k_declen_g2_compressed, 65, 34, true, Kind::Cmp;
+    k_dec_g1_raw, k_declen_g1_raw, k_decenc_g1_raw, 64, 34, false, Kind::Raw;
+    k_dec_g1_uncompressed, k_declen_g1_uncompressed, k_decenc_g1_uncompressed, 65, 34, false, Kind::Unc;
+    k_dec_g1_compressed, k_declen_g1_compressed, k_decenc_g1_compressed, 33, 34, false, Kind::Cmp;
+    k_dec_g2_raw, k_declen_g2_raw, k_decenc_g2_raw, 128, 34, true, Kind::Raw;
+    k_dec_g2_uncompressed, k_declen_g2_uncompressed, k_decenc_g2_uncompressed, 129, 34, true, Kind::Unc;
+    k_dec_g2_compressed, k_declen_g2_compressed, k_decenc_g2_compressed, 65, 34, true, Kind::Cmp;
 }
